@@ -141,6 +141,103 @@ def crashSafeB (d : Dir) (ops : List FsOp) (file : String) (newContent : String)
     let c := (crash d ops k).get file
     c == d.get file || c == some newContent
 
+/-! ## the write protocol with user-space buffers (round 3)
+
+The primitives recorded from the real code are the calls on the Python file object and on `os`:
+a `write` only appends to the buffer of the handle; the text reaches the file at `flush`/`close`
+(a stopped process loses its buffers).  `os.replace` switches the directory entry atomically; a
+handle that is still open follows its file (it now writes into the published name), a handle on
+the replaced file is orphaned. -/
+
+inductive BOp where
+  | openTrunc (h : String)                 -- `open(h, "w")`: file created/truncated, empty buffer
+  | write (h : String) (chunk : String)    -- `pf.write(chunk)`: buffered
+  | flush (h : String)                     -- `pf.flush()`
+  | close (h : String)                     -- `pf.close()` / end of the `with` block: flush, handle gone
+  | replace (src dst : String)             -- `os.replace(src, dst)` / `os.rename`
+  | remove (p : String)                    -- `os.remove(p)` / `os.unlink`
+deriving Repr, DecidableEq
+
+/-- an open handle: the path it was opened with (its identity in the recorded trace), the path
+under which its file is visible now (`none`: replaced or removed), the text not yet in the file -/
+structure Handle where
+  id : String
+  cur : Option String
+  buf : String
+deriving Repr, DecidableEq
+
+structure Fs where
+  disk : Dir
+  hs : List Handle
+deriving Repr
+
+/-- the buffer of handle `h` reaches the file it refers to -/
+def flushH (fs : Fs) (h : String) : Fs :=
+  match fs.hs.find? (·.id == h) with
+  | none => fs
+  | some hd =>
+    { disk := match hd.cur with
+        | some q => fs.disk.set q ((fs.disk.get q).getD "" ++ hd.buf)
+        | none => fs.disk
+      hs := fs.hs.map fun x => if x.id == h then { x with buf := "" } else x }
+
+def applyB (fs : Fs) : BOp → Fs
+  | .openTrunc p =>
+    { disk := fs.disk.set p "", hs := ⟨p, some p, ""⟩ :: fs.hs.filter (·.id != p) }
+  | .write h c => { fs with hs := fs.hs.map fun x => if x.id == h then { x with buf := x.buf ++ c } else x }
+  | .flush h => flushH fs h
+  | .close h => let fs' := flushH fs h; { fs' with hs := fs'.hs.filter (·.id != h) }
+  | .replace s t =>
+    if s == t then fs else
+    match fs.disk.get s with
+    | none => fs                            -- FileNotFoundError in the real code
+    | some c =>
+      { disk := (fs.disk.del s).set t c
+        hs := fs.hs.map fun x =>
+          if x.cur == some t then { x with cur := none }
+          else if x.cur == some s then { x with cur := some t } else x }
+  | .remove p =>
+    { disk := fs.disk.del p
+      hs := fs.hs.map fun x => if x.cur == some p then { x with cur := none } else x }
+
+def applyBs (fs : Fs) (ops : List BOp) : Fs := ops.foldl applyB fs
+
+/-- what is on disk when the process stops after `k` primitives (the buffers are lost) -/
+def crashB (d : Dir) (ops : List BOp) (k : Nat) : Dir := (applyBs ⟨d, []⟩ (ops.take k)).disk
+
+/-- the protocol of the code: everything written to `tmp`, `tmp` closed, then renamed -/
+def protocolB (tmp file : String) (chunks : List String) : List BOp :=
+  [.openTrunc tmp] ++ chunks.map (.write tmp) ++ [.close tmp, .replace tmp file]
+
+/-- the same statements with the rename INSIDE the `with` block: published before it is closed -/
+def protocolReplaceBeforeClose (tmp file : String) (chunks : List String) : List BOp :=
+  [.openTrunc tmp] ++ chunks.map (.write tmp) ++ [.replace tmp file, .close tmp]
+
+/-- rewrite in place with buffers -/
+def protocolInPlaceB (file : String) (chunks : List String) : List BOp :=
+  [.openTrunc file] ++ chunks.map (.write file) ++ [.close file]
+
+/-- executable form of "the primitive touches only the handle / the path `tmp` and publishes nothing" -/
+def onlyTmpOp (tmp : String) : BOp → Bool
+  | .openTrunc p => p == tmp
+  | .write p _ => p == tmp
+  | .flush p => p == tmp
+  | .close p => p == tmp
+  | .replace _ _ => false
+  | .remove _ => false
+
+/-- the family of shapes "anything on the temporary file, then one rename as the LAST primitive"
+(explicit flushes, one write or many, ...): decided by the driver on a recorded trace -/
+def tmpThenReplace (ops : List BOp) (tmp file : String) : Bool :=
+  tmp != file && ops.getLast? == some (.replace tmp file) && ops.dropLast.all (onlyTmpOp tmp)
+
+/-- the crash points (number of completed primitives) after which the published file is neither
+what it was nor the complete new content: decided by the model on the recorded trace -/
+def unsafePoints (d : Dir) (ops : List BOp) (file newContent : String) : List Nat :=
+  (List.range (ops.length + 1)).filter fun k =>
+    let c := (crashB d ops k).get file
+    !(c == d.get file || c == some newContent)
+
 /-! ## sessions on one object: several entry points, option combinations, renames
 
 One `BIOGEME` object receives a sequence of public calls.  Every derivative evaluation
@@ -161,6 +258,10 @@ inductive Op (α : Type) where
   | rename (name : String)
   /-- `estimate()`: `bestIteration = None` (the evaluations of the optimiser follow as `eval`) -/
   | reset
+  /-- one derivative evaluation issued while the engine holds a bootstrap resample (the loop of
+  `estimate(run_bootstrap=True)`): its value is not a log likelihood on the estimation data.
+  Repaired code (finding F-C15-boot): saving is suspended, neither marker nor file change. -/
+  | bootEval (e : Eval α)
 deriving Repr
 
 /-- model name ↦ values in `__<name>.iter` -/
@@ -187,6 +288,7 @@ def sstep {α} (ge : α → α → Bool) (s : Sess α) : Op α → Sess α
       files := if saves ge s.best e then s.files.set s.name e.x else s.files }
   | .rename n => { s with name := n }
   | .reset => { s with best := none }
+  | .bootEval _ => s
 
 def srun {α} (ge : α → α → Bool) (s : Sess α) (ops : List (Op α)) : Sess α :=
   ops.foldl (sstep ge) s
@@ -209,5 +311,37 @@ def namedEvals {α} (name : String) : List (Op α) → List (String × Eval α)
   | .eval e _ :: t => (name, e) :: namedEvals name t
   | .rename n :: t => namedEvals n t
   | .reset :: t => namedEvals name t
+  | .bootEval _ :: t => namedEvals name t
+
+/-! ## several objects in one working directory (round 3)
+
+Every `BIOGEME` object has its own `modelName` and its own marker `bestIteration`; the files are
+those of the working directory, shared by all objects (two objects with the same model name write
+the same file; `estimate_catalog` and `validate` create one object per model). -/
+
+structure Obj (α : Type) where
+  name : String
+  best : Option α
+deriving Repr
+
+structure World (α : Type) where
+  objs : List (Obj α)
+  files : Files
+deriving Repr
+
+/-- operation `p.2` on object number `p.1` (an unknown number: nothing happens) -/
+def wstep {α} (ge : α → α → Bool) (w : World α) (p : Nat × Op α) : World α :=
+  match w.objs[p.1]? with
+  | none => w
+  | some o =>
+    let s' := sstep ge ⟨o.name, o.best, w.files⟩ p.2
+    { objs := w.objs.set p.1 ⟨s'.name, s'.best⟩, files := s'.files }
+
+def wrun {α} (ge : α → α → Bool) (w : World α) (ops : List (Nat × Op α)) : World α :=
+  ops.foldl (wstep ge) w
+
+def wtrace {α} (ge : α → α → Bool) (w : World α) : List (Nat × Op α) → List Files
+  | [] => []
+  | o :: t => let w' := wstep ge w o; w'.files :: wtrace ge w' t
 
 end IterFile
